@@ -249,8 +249,17 @@ def sub_markers(item, contract, out, assume=False, twin=None):
     src_lines = text.split("\n")
     inserts_before = {}
     inserts_after = {}
+    def _loopvar(m):
+        nm, k = m.group(1), m.group(2)
+        lps = item.get("loops", [])
+        if k is not None:
+            return f"{nm}__{int(k)}"
+        if len(lps) != 1:
+            raise Undecided("tool-error", f"{path}: ${nm} in a @proof block is ambiguous ({len(lps)} loops); write ${nm}#<loop id>")
+        return f"{nm}__{lps[0]['id']}"
     if contract is not None and not assume:
         for where, anchor, lines in contract.proofs:
+            lines = [(re.sub(r"\$([A-Za-z_]+)(?:#(\d+))?", _loopvar, t), lab) for (t, lab) in lines]
             hits = [i for i, l in enumerate(src_lines) if anchor in l]
             if len(hits) != 1:
                 raise Undecided("lost-anchor", f"{path}: proof anchor {anchor!r} matches {len(hits)} lines")
